@@ -41,7 +41,10 @@ class C46(core.Prop):
             # the operations that did complete are judged first: a crash that follows a divergence already reported (e.g. a seek computed
             # from a size that a known defect made wrong) is a consequence, not a finding of its own
             fsys.check(case, log, oc, labels, partial=True)
-            if all(v.sig.startswith(("used-size-wrong", "free-size-wrong")) for v in oc.violations):   # (these do not end the comparison)
+            if "crash_explained" in oc.info:
+                if not oc.violations:
+                    oc.invalid = True
+            elif all(v.sig.startswith(("used-size-wrong", "free-size-wrong")) for v in oc.violations):   # (these do not end the comparison)
                 oc.bad("run-crashed", "s4u_wf did not finish: " + log.crash_text())
             oc.labels = sorted(labels)
             return oc
